@@ -50,6 +50,12 @@ class Driver:
         assert "\n" not in req
         self.p.stdin.write(req + "\n")
         self.p.stdin.flush()
+        # a request that never returns (e.g. a rational blow-up in exact execution) must not hang the check
+        import select
+        ready, _, _ = select.select([self.p.stdout], [], [], float(os.environ.get("VERIF_DRIVER_TIMEOUT", "900")))
+        if not ready:
+            self.p.kill()
+            raise TimeoutError(f"driver did not answer within the time limit on request {req[:200]}")
         line = self.p.stdout.readline()
         if not line:
             raise RuntimeError(f"driver died on request {req[:200]}")
